@@ -28,15 +28,17 @@ from harness.core import sp
 PID = "C17"
 RULE = ("cases: (a) end-to-end: abstract dataclass trees (1-5 fields, optional nested dataclass child, types from the CLI "
         "grammar int/float/str/bool/Path/Enum, List[atom | Union | Optional], Tuple fixed/variadic, Union, Optional of those; defaults "
-        "missing/None/value) each rendered in 5 annotation styles x {flat, 2-3 level chain (sometimes re-declaring a "
-        "field)} x {module scope, function scope with the parse inside the defining call} = 20 real modules, parsed "
+        "missing/None/value) each rendered in 6 annotation styles (typing, builtin, PEP 604, postponed text of each) x {flat, 2-3 level chain "
+        "(sometimes re-declaring a field)} x {module scope, function scope with the parse inside the defining call}, plus "
+        "the chain split over TWO modules (bases in one, the derived class and the classes only it mentions in the other) "
+        "= 30 real module sets; enums are the framework's gen_types universe (incl. str / int mix-ins), parsed "
         "with the empty command line, 3-4 valid and 2-3 invalid command lines (bad token, wrong arity, unknown option), "
         "all compared with the typing-style flat module-scope rendering; the nested member is required, default_factory or "
         "Optional[Child] / Union[Child, None] / Child | None = None; Enum and nested classes live in the same scope as the "
         "outer class; function-scope modules also define module-level globals of the same names with different contents, "
         "and the defining function is executed 3 times (every call's parses are compared, and every enum member / "
         "dataclass instance returned must belong to the classes created by that very call); dense regression streams for the two repaired "
-        "defects (lists of unions; unions over variadic tuples); (b) unit ops on annotation objects built directly (typing / builtin / UnionType mixes, "
+        "defects (lists of unions; unions over variadic tuples) and a stream for the open finding (lists of containers); (b) unit ops on annotation objects built directly (typing / builtin / UnionType mixes, "
         "arbitrary nesting): the utils.py classifiers, _replace_UnionType_with_typing_Union, the get_arg_options "
         "digest of a one-field dataclass; (c) the `A | B` text rewriter on generated and mangled texts; (d) string "
         "resolution through get_field_type_from_annotations; (e) field order of inheritance chains with overrides. "
@@ -49,19 +51,37 @@ ASSUMPTIONS = [
     "typing aliases forward .mro() but not __mro__, typing.Union and UnionType compare their members as sets",
     "dataclasses builds __dataclass_fields__ base-first with dict-update semantics",
     "dict / set / Literal annotations, bare containers and dataclasses inside containers are outside the modelled fragment",
-    "List[List[..]] / List[Tuple[..]] (a list whose items are containers) are not part of the command-line type grammar "
-    "(neither spelling yields a usable option) and are only exercised at unit level",
+    "a typing container with PEP 604 members (List[int | str]) is not rendered: typing caches aliases by ==/hash of the "
+    "arguments and int | str == Union[int, str], so the object would be handed out for later List[Union[int, str]] of the "
+    "same process (CPython trait; would make cases depend on process history)",
 ]
 TRUSTED = ["CPython importlib / typing.get_type_hints / frame objects", "stdlib argparse"]
 EXHAUSTIVE = {"quick": False, "thorough": False}
 SERIAL = False
 
 N_AGAIN = 2          # further executions of the defining function per function-scope rendering
-STYLES = ["typing", "builtin", "pep604", "post_typing", "post_604"]
+STYLES = ["typing", "builtin", "pep604", "post_typing", "post_builtin", "post_604"]
 LAYOUTS = ["flat", "chain"]
 SCOPES = ["module", "function"]
 REF = ("typing", "flat", "module")
-ENUMS = {"Color": ["RED", "GREEN", "BLUE"], "Mode": ["FAST", "SLOW"]}
+from harness.core import gen_types as _gt          # noqa: E402
+from harness.core.trees import ENUM_MIXINS          # noqa: E402
+
+# the framework's enum universe (gen_types.ENUMS): plain enums, member names that look like values / vocabulary words,
+# values that are other members' names, a str mix-in (Level, with a falsy member) and an int mix-in (Prio)
+ENUM_SPECS = {e["cls"]: e for e in _gt.ENUMS}
+ENUMS = {n: list(e["members"]) for n, e in ENUM_SPECS.items()}
+
+
+def enum_src(name, ind="", decoy=False):
+    """functional-API definition (member names need not be identifiers); a decoy has the same name, other members"""
+    e = ENUM_SPECS[name]
+    if decoy:
+        return f'{ind}{name} = enum.Enum("{name}", {{"DECOY_A": "a", "DECOY_B": "b"}})'
+    vals = e.get("values") or list(range(len(e["members"])))
+    body = ", ".join(f"{m!r}: {v!r}" for m, v in zip(e["members"], vals))
+    mix = ENUM_MIXINS.get(name)
+    return f'{ind}{name} = enum.Enum("{name}", {{{body}}}' + (f", type={mix.__name__}" if mix else "") + ")"
 ATOMS = ["int", "float", "str", "bool", "path", "enum"]
 
 
@@ -146,6 +166,21 @@ def t_vt(rng):
     return {"k": "opt", "inner": {"k": "tuple", "items": [t_atom(rng), vt]}}
 
 
+def t_loc(rng):
+    """a list whose items are themselves containers (open finding C17-list-of-containers)"""
+    item = rng.choice([{"k": "list", "item": t_atom(rng, allow_bool=False)},
+                       {"k": "tuple", "items": [t_atom(rng, allow_bool=False), t_atom(rng, allow_bool=False)]},
+                       {"k": "vtuple", "item": t_atom(rng, allow_bool=False)}])
+    t = {"k": "list", "item": item}
+    return {"k": "opt", "inner": t} if rng.random() < 0.3 else t
+
+
+def is_loc(t):
+    if t["k"] == "opt":
+        t = t["inner"]
+    return t["k"] == "list" and t["item"]["k"] in ("list", "tuple", "vtuple")
+
+
 def has_kind(t, kind):
     if t["k"] == kind:
         return True
@@ -173,7 +208,7 @@ def depth(t):
 
 GOOD = {"int": ["0", "12", "7", "-3"], "float": ["1.5", "2", "1e3", "-0.25"], "str": ["abc", "x_y", "12", "None"],
         "bool": ["true", "False", "1", "no", "Y"], "path": ["a/b.txt", "out", "/tmp/x"]}
-BAD = {"int": ["zz", "1.5x"], "float": ["zz", "1,5"], "bool": ["maybe", "2"], "enum": ["PURPLE", "red"]}
+BAD = {"int": ["zz", "1.5x"], "float": ["zz", "1,5"], "bool": ["maybe", "2"], "enum": ["PURPLE", "red", "low"]}
 
 
 def good_tokens(rng, t):
@@ -183,6 +218,8 @@ def good_tokens(rng, t):
     if k == "enum":
         return [rng.choice(ENUMS[t["cls"]])]
     if k == "list":
+        if t["item"]["k"] in ("list", "tuple", "vtuple"):
+            return [rng.choice(["12", "34", "7"]) for _ in range(rng.choice([1, 2]))]
         return [tok for _ in range(rng.choice([0, 1, 2, 3])) for tok in good_tokens(rng, t["item"])[:1]]
     if k == "vtuple":
         return [tok for _ in range(rng.choice([1, 2, 3])) for tok in good_tokens(rng, t["item"])[:1]]
@@ -229,7 +266,7 @@ def default_src(rng, t):
     if k == "path":
         return 'Path("p/q")'
     if k == "enum":
-        return f'{t["cls"]}.{rng.choice(ENUMS[t["cls"]])}'
+        return f'{t["cls"]}[{rng.choice(ENUMS[t["cls"]])!r}]'
     if k == "list":
         inner = ", ".join(default_src(rng, item_for_default(t["item"])) for _ in range(rng.choice([0, 1, 2])))
         return f"field(default_factory=lambda: [{inner}])"
@@ -261,6 +298,10 @@ def item_for_default(t):
 
 def mk_field(rng, name, ty, required_ok):
     p = rng.random()
+    if is_loc(ty):
+        if ty["k"] == "opt":
+            return {"name": name, "ty": ty, "dflt": "none", "default": "None"}
+        return {"name": name, "ty": ty, "dflt": "value", "default": "field(default_factory=list)"}
     if required_ok and p < 0.3:
         return {"name": name, "ty": ty, "dflt": "missing", "default": None}
     if ty["k"] not in ("opt", "bool") and p < 0.36 and ty["k"] in ("int", "str", "float", "list", "enum"):
@@ -282,6 +323,8 @@ def mk_tree(rng, stream="grammar"):
             ty = t_d18(rng)
         elif stream == "vt" and not fields:
             ty = t_vt(rng)
+        elif stream == "loc" and not fields:
+            ty = t_loc(rng)
         else:
             ty = t_field(rng)
         fields.append(mk_field(rng, f"f{next(counter)}", ty, True))
@@ -449,13 +492,16 @@ def rand_ann(rng, d=0, style=None):
 
 class _Ns:
     """the classes annotation objects refer to"""
-    Color = enum.Enum("Color", {m: m.lower() for m in ENUMS["Color"]})
-    Mode = enum.Enum("Mode", {m: m.lower() for m in ENUMS["Mode"]})
+    pass
 
     @dataclasses.dataclass
     class Child:
         g0: int = 0
 
+
+for _n, _e in ENUM_SPECS.items():
+    setattr(_Ns, _n, enum.Enum(_n, dict(zip(_e["members"], _e.get("values") or range(len(_e["members"])))),
+                               type=ENUM_MIXINS.get(_n)))
 
 _CLS = {"int": int, "float": float, "str": str, "bool": bool, "path": pathlib.Path, "none": type(None)}
 
@@ -570,6 +616,21 @@ def describe_conv(fn, d=0):
     return {"f": "raw", "repr": repr(fn)[:60]}
 
 
+def post_digest(fw):
+    """what FieldWrapper.postprocess does to a list, a tuple and a str (type of the result, or the exception)"""
+    out = []
+    for probe in (["1"], ("1",), "zz"):
+        r = sp.run_outcome(lambda: fw.postprocess(probe))
+        out.append(type(r["value"]).__name__ if r["o"] == "ok" else "raise:" + str(r.get("exc")))
+    return out
+
+
+# the model's postprocess arm -> the same three observations
+POST_TABLE = {"enum": ["list", "tuple", "raise:KeyError"], "to_tuple": ["tuple", "tuple", "tuple"],
+              "same": ["list", "tuple", "str"], "to_list": ["list", "list", "str"], "opt_tuple": ["tuple", "tuple", "str"],
+              "call_cls": ["list", "tuple", "PosixPath"], "call_fails": ["list", "tuple", "str"]}
+
+
 def kind_digest(fw):
     from simple_parsing.helpers.custom_actions import BooleanOptionalAction
 
@@ -583,7 +644,7 @@ def kind_digest(fw):
             ch = list(ch)
     nargs = ao.get("nargs")
     tf = ao.get("type")
-    return {"nested": False, "required": bool(ao.get("required")), "nargs": nargs,
+    return {"nested": False, "required": bool(ao.get("required")), "nargs": nargs, "post": post_digest(fw),
             "conv": None if tf is None else describe_conv(tf), "choices": ch,
             "bool_action": ao.get("action") is BooleanOptionalAction,
             "callable": tf is None or callable(tf)}
@@ -600,10 +661,11 @@ import enum
 
 
 def live_of(style):
-    return {"typing": "typing", "builtin": "builtin", "pep604": "pep604", "post_typing": "typing", "post_604": "pep604"}[style]
+    return {"typing": "typing", "builtin": "builtin", "pep604": "pep604", "post_typing": "typing",
+            "post_builtin": "builtin", "post_604": "pep604"}[style]
 
 
-def render_ty(t, live):
+def render_ty(t, live, canonical=False):
     k = t["k"]
     if k in ("int", "float", "str", "bool"):
         return k
@@ -623,7 +685,7 @@ def render_ty(t, live):
         return " | ".join(parts) if live == "pep604" else f"Union[{', '.join(parts)}]"
     if k == "opt":
         inner = render_ty(t["inner"], live)
-        if live != "pep604" and t["inner"]["k"] == "dc" and t.get("spell") == "union":
+        if live != "pep604" and t["inner"]["k"] == "dc" and t.get("spell") == "union" and not canonical:
             return f"Union[{inner}, None]"
         return f"{inner} | None" if live == "pep604" else f"Optional[{inner}]"
     raise ValueError(k)
@@ -645,10 +707,8 @@ def render_module(tree, style, layout, scope):
     live = live_of(style)
     ind = "    " if scope == "function" else ""
     body = []
-    for en, members in ENUMS.items():
-        body.append(f"{ind}class {en}(enum.Enum):")
-        for m in members:
-            body.append(f"{ind}    {m} = \"{m.lower()}\"")
+    for en in ENUMS:
+        body.append(enum_src(en, ind))
     by = {c["name"]: c for c in tree["classes"]}
     for c in tree["classes"]:
         if c["name"] != tree["root"] or layout == "flat":
@@ -679,13 +739,75 @@ def render_module(tree, style, layout, scope):
     return src
 
 
-DECOYS = """class Color(enum.Enum):
-    CYAN = "c"
-    MAGENTA = "m"
-class Mode(enum.Enum):
-    TRAIN = "t"
-    EVAL = "e"
-"""
+def names_in(t):
+    """class names (enums, nested dataclass) an annotation mentions"""
+    if t["k"] in ("enum", "dc"):
+        return {t["cls"]}
+    out = set()
+    for sub in subterms(t):
+        out |= names_in(sub)
+    return out
+
+
+def two_module_split(tree):
+    """which generated classes live in the base module (needed by a base segment) and which only in the derived one"""
+    root = [c for c in tree["classes"] if c["name"] == tree["root"]][0]
+    fmap = {f["name"]: f for f in root["fields"]}
+    base_names = [n for seg in tree["chain"][:-1] for n in seg]
+    in_a = set()
+    for n in base_names:
+        in_a |= names_in(fmap[n]["ty"])
+    by = {c["name"]: c for c in tree["classes"]}
+    for cn in list(in_a):
+        if cn in by:                                   # the nested class's own annotations come along
+            for f in by[cn]["fields"]:
+                in_a |= names_in(f["ty"])
+    everything = set(ENUMS) | {c["name"] for c in tree["classes"] if c["name"] != tree["root"]}
+    derived_fields = list(tree["chain"][-1]) + list(tree["redeclare"])
+    used_b = set()
+    for n in derived_fields:
+        used_b |= names_in(fmap[n]["ty"])
+    return {"a": sorted(in_a), "b": sorted(everything - in_a), "base_fields": base_names,
+            "b_only_used": sorted((everything - in_a) & used_b)}
+
+
+def render_two_modules(tree, style, name_a):
+    """base classes of the chain in one module, the most derived class in another that imports them; classes that only
+    the derived class's annotations mention are defined in the derived module only"""
+    live = live_of(style)
+    sp_ = two_module_split(tree)
+    by = {c["name"]: c for c in tree["classes"]}
+    root = by[tree["root"]]
+    fmap = {f["name"]: f for f in root["fields"]}
+    fut = "from __future__ import annotations\n" if style.startswith("post_") else ""
+
+    def defs(names):
+        out = []
+        for n in names:
+            if n in ENUMS:
+                out.append(enum_src(n))
+        for c in tree["classes"]:
+            if c["name"] in names and c["name"] != tree["root"]:
+                out += render_class(c["name"], None, c["fields"], live, "")
+        return out
+
+    a = defs(sp_["a"])
+    segs = tree["chain"]
+    base = None
+    for i, seg in enumerate(segs[:-1]):
+        a += render_class(f"Base{i}", base, [fmap[n] for n in seg], live, "")
+        base = f"Base{i}"
+    src_a = fut + HEADER + "\n".join(a) + "\n"
+    imported = sp_["a"] + [f"Base{i}" for i in range(len(segs) - 1)]
+    b = [f"from {name_a} import {', '.join(imported)}"] + defs(sp_["b"])
+    b += render_class(tree["root"], base, [fmap[n] for n in list(segs[-1]) + list(tree["redeclare"])], live, "")
+    names = sorted(ENUMS) + [c["name"] for c in tree["classes"]]
+    ns = "dict(" + ", ".join(f"{n}={n}" for n in names) + ")"
+    src_b = fut + HEADER + "\n".join(b) + f"\n\ndef run(cb):\n    return cb({tree['root']}, {ns})\n"
+    return src_a, src_b
+
+
+DECOYS = "".join(enum_src(n, decoy=True) + "\n" for n in ENUMS)
 
 
 # ------------------------------------------------------------------------------------------------
@@ -712,9 +834,12 @@ class CaseDir:
         self.names, self.paths = [], []
         return self
 
-    def load(self, text):
+    def fresh_name(self):
+        return f"spverif_c17_{os.getpid()}_{next(_counter)}_m"
+
+    def load(self, text, name=None):
         tag = hashlib.sha256(text.encode()).hexdigest()[:8]
-        name = f"spverif_c17_{os.getpid()}_{next(_counter)}_{tag}"
+        name = name or f"spverif_c17_{os.getpid()}_{next(_counter)}_{tag}"
         path = os.path.join(self.dir, name + ".py")
         with open(path, "w") as f:
             f.write(text)
@@ -777,7 +902,7 @@ def _foreign(v, ns, path="cfg"):
         if ns.get(type(v).__name__) is not type(v):
             bad.append(f"{path}:{type(v).__name__}")
         if isinstance(v, enum.Enum):
-            if getattr(ns.get(type(v).__name__), v.name, None) is not v:
+            if getattr(ns.get(type(v).__name__), "__members__", {}).get(v.name) is not v:
                 bad.append(f"{path}:{type(v).__name__}.{v.name}")
         else:
             for f in dataclasses.fields(v):
@@ -869,15 +994,34 @@ def impl_e2e(c):
                     except BaseException as e:  # noqa: BLE001
                         obs = {"import_error": "run:" + type(e).__name__, "msg": str(e)[:200]}
                     out["renderings"][rkey(style, layout, scope)] = obs
-        out["texts"] = {st: {cl["name"]: [render_ty(f["ty"], live_of(st)) for f in cl["fields"]] for cl in tree["classes"]}
-                        for st in STYLES}
+        # the chain split over TWO modules (module scope only; compared by the oracle, not by the model)
+        for style in STYLES:
+            name_a = cd.fresh_name()
+            src_a, src_b = render_two_modules(tree, style, name_a)
+            key = rkey(style, "chain2mod", "module")
+            try:
+                cd.load(src_a, name_a)
+                mod = cd.load(src_b)
+            except BaseException as e:  # noqa: BLE001
+                out["renderings"][key] = {"import_error": type(e).__name__, "msg": str(e)[:200]}
+                continue
+            try:
+                out["renderings"][key] = mod.run(lambda cls, ns: _run_rendering(tree, argvs, cls, ns))
+            except BaseException as e:  # noqa: BLE001
+                out["renderings"][key] = {"import_error": "run:" + type(e).__name__, "msg": str(e)[:200]}
+        out["texts"] = {st: {cl["name"]: [render_ty(f["ty"], live_of(st), canonical=True) for f in cl["fields"]]
+                             for cl in tree["classes"]} for st in STYLES}
+        # what the dataclass Field must hold before anything is resolved (root class, postponed styles)
+        root = [cl for cl in tree["classes"] if cl["name"] == tree["root"]][0]
+        out["raw_expected"] = {st: {f["name"]: render_ty(f["ty"], live_of(st)) for f in root["fields"]}
+                               for st in STYLES if st.startswith("post_")}
     return out
 
 
 def _module_for_text(cd, text, postponed=True):
     src = ("from __future__ import annotations\n" if postponed else "") + HEADER
-    for en, members in ENUMS.items():
-        src += f"class {en}(enum.Enum):\n" + "".join(f"    {m} = \"{m.lower()}\"\n" for m in members)
+    for en in ENUMS:
+        src += enum_src(en) + "\n"
     src += "@dataclass\nclass Child:\n    g0: int = 0\n"
     src += f"@dataclass\nclass C:\n    x: {text}\n"
     return cd.load(src)
@@ -1018,9 +1162,7 @@ def _some_default(t):
 
 
 def tree_for_model(tree):
-    """an Optional nested dataclass member is sent as the plain member with a None default (the model's dataclass
-    test covers the `contains_dataclass_type_arg` arm only through the member itself)"""
-    return [{"name": c["name"], "fields": [{"name": f["name"], "ty": ({"k": "dc", "cls": dc_of(f["ty"])} if dc_of(f["ty"]) else f["ty"]),
+    return [{"name": c["name"], "fields": [{"name": f["name"], "ty": {k: v for k, v in f["ty"].items() if k != "spell"},
                                             "dflt": f["dflt"]} for f in c["fields"]]}
             for c in tree["classes"]]
 
@@ -1038,9 +1180,7 @@ def _mask_optdc(tree, classes):
         for f in cl["fields"]:
             if cl["name"] in optional_classes and isinstance(f.get("kind"), dict) and "required" in f["kind"]:
                 f["kind"]["required"] = "not-compared"
-            if (cl["name"], f["name"]) in skip:
-                f["type"] = "optional-dataclass"
-                f["text"] = "optional-dataclass"
+    _ = skip
 
 
 def model_case(case, obs):
@@ -1063,6 +1203,7 @@ def _norm_kind(k):
     if k.get("branch") == "nested":
         return {"nested": True}
     return {"nested": False, "required": k["required"], "nargs": k["nargs"], "conv": k["conv"], "choices": k["choices"],
+            "post": POST_TABLE.get(k.get("post"), k.get("post")),
             "bool_action": k["branch"] == "bool", "callable": k["callable"]}
 
 
@@ -1071,12 +1212,19 @@ def _real_style_view(obs, style):
     ref = obs["renderings"][rkey(style, "flat", "module")]
     if "import_error" in ref:
         return {"import_error": ref["import_error"]}
-    view = {"setup": ref["setup"], "classes": ref["classes"]}
+    view = {"setup": ref["setup"], "classes": ref["classes"], "raw_ok": True}
     for layout in LAYOUTS:
         for scope in SCOPES:
             o = obs["renderings"][rkey(style, layout, scope)]
             if "import_error" in o:
                 return {"divergent": rkey(style, layout, scope), "import_error": o["import_error"]}
+            # the Field really holds the rendered text (postponed) / a live object (otherwise) before resolution
+            exp = obs.get("raw_expected", {}).get(style)
+            raw = o.get("raw_types") or {}
+            if exp is not None and raw != exp:
+                view["raw_ok"] = {"rendering": rkey(style, layout, scope), "raw": raw, "expected": exp}
+            if exp is None and any(v is not None for v in raw.values()):
+                view["raw_ok"] = {"rendering": rkey(style, layout, scope), "raw": raw, "expected": "live objects"}
             if o["setup"] != ref["setup"] or json.dumps(o["classes"], sort_keys=True) != json.dumps(ref["classes"], sort_keys=True):
                 return {"divergent": rkey(style, layout, scope)}
     # annotation text as the dataclass Field holds it (postponed styles) must be the rendered text
@@ -1117,7 +1265,7 @@ def project_model(case, mo):
         out = {}
         for st, v in mo["styles"].items():
             if v["setup"].startswith("raise:") and v["setup"] != "raise:ValueError":
-                out[st] = {"setup": v["setup"], "classes": None}      # DataclassWrapper.__init__ raised
+                out[st] = {"setup": v["setup"], "classes": None, "raw_ok": True}      # DataclassWrapper.__init__ raised
                 continue
             classes = []
             # real order: root first, then nested classes in field order; the model lists classes as given
@@ -1128,7 +1276,7 @@ def project_model(case, mo):
                 classes.append({"name": cn, "fields": [{"name": f["name"], "type": f["type"]["ann"] if f["type"]["o"] == "ok" else f["type"],
                                                         "kind": _norm_kind(f["kind"]), "text": f["text"]} for f in cl["fields"]]})
             _mask_optdc(case["case"]["tree"], classes)
-            out[st] = {"setup": v["setup"], "classes": classes}
+            out[st] = {"setup": v["setup"], "classes": classes, "raw_ok": True}
         return {"styles": out, "order": mo["order"]}
     if op == "annot.kind":
         return {"o": "ok", "kind": _norm_kind(mo)}
@@ -1248,6 +1396,52 @@ def nontrivial(case, obs):
     return "|" in c.get("text", "")
 
 
+def _is_atom(t):
+    return t["k"] in ATOMS
+
+
+def _robust(t):
+    """mirror of Props/C17.lean `robust` (which field types the theorem covers), returns a reason when outside"""
+    k = t["k"]
+    if _is_atom(t):
+        return None
+    if k == "dc":
+        return "dc-inside"
+    if k in ("list", "vtuple"):
+        return _robust(t["item"])
+    if k == "tuple":
+        return None if all(_is_atom(i) for i in t["items"]) else "TupleItemsAtomic"
+    if k == "union":
+        for a in t["alts"]:
+            if a["k"] in ("union", "opt"):
+                return "not-normal"
+            r = _robust(a)
+            if r:
+                return r
+        return None
+    if k == "opt":
+        i = t["inner"]
+        if i["k"] == "union":
+            return None if all(_is_atom(a) for a in i["alts"]) else "OptionalUnionMembersAtomic"
+        if i["k"] == "opt":
+            return "not-normal"
+        return _robust(i)
+    return "?"
+
+
+def theorem_scope(t):
+    """'in' when c17_style_invariant_partial speaks about this field type, else the named restriction that excludes it"""
+    if t["k"] == "dc" or (t["k"] == "opt" and t["inner"]["k"] == "dc"):
+        return "in"
+    r = _robust(t)
+    if r:
+        return r
+    lst = t["inner"] if t["k"] == "opt" else t
+    if lst["k"] == "list" and not (_is_atom(lst["item"]) or lst["item"]["k"] in ("union", "opt")):
+        return "ListItemsNotContainers"
+    return "in"
+
+
 def ann_depth(a):
     return 1 + max([ann_depth(x) for x in a.get("args", [])], default=0)
 
@@ -1263,6 +1457,7 @@ def tags(case, obs):
         for f in all_leaf_fields(c["tree"]):
             t.append("ty:" + f["ty"]["k"] + (":" + f["ty"]["inner"]["k"] if f["ty"]["k"] == "opt" else ""))
             t.append("dflt:" + f["dflt"])
+            t.append("thm:" + theorem_scope(f["ty"]))
         ref = obs["renderings"].get(rkey(*REF), {})
         for p in ref.get("parses", []):
             t.append("ref-out:" + (p["o"] if p["o"] != "exit" else f"exit{p.get('code')}"))
@@ -1350,13 +1545,15 @@ def gen(rng, tier):
         yield {"op": "annot.replace", "case": {"ann": a}}
         yield {"op": "annot.kind", "case": {"ann": a, "dflt": rng.choice(["missing", "value", "value", "none"])}}
     # (a) end to end
-    n = 60 if quick else 1200
+    n = 60 if quick else 500
     for i in range(n):
         stream = "grammar"
         if i % 10 == 3:
             stream = "d18"
         elif i % 10 == 7:
             stream = "vt"
+        elif i % 10 == 5:
+            stream = "loc"
         yield e2e_case(rng, stream)
 
 
@@ -1404,36 +1601,63 @@ def _argv_ok(av, tree):
 
 def neighbours(case, rng):
     for _ in range(30):
-        yield e2e_case(rng, rng.choice(["grammar", "grammar", "d18", "vt"]))
+        yield e2e_case(rng, rng.choice(["grammar", "grammar", "d18", "vt", "loc"]))
 
 
 # ------------------------------------------------------------------------------------------------
 # open findings
 
 
-FINDINGS = {}        # no open finding: the two recorded defects are repaired, their replays are plain corpus cases
+def _sig_loc(case, obs, fail):
+    """list of containers: the builtin spellings accept the option (and return characters), typing exits 2"""
+    if case["op"] != "annot.e2e" or fail.get("clause") != "style-invariance":
+        return False
+    if fail.get("style") not in ("builtin", "pep604", "post_builtin", "post_604"):
+        return False
+    if fail.get("ref") != ["exit", 2] or (fail.get("got") or [None])[0] != "ok":
+        return False
+    argv = case["case"]["argvs"][fail["argv_i"]]
+    used = {tok[2:].split("=")[0] for tok in argv if tok.startswith("--")}
+    return any(is_loc(f["ty"]) and f["name"] in used for f in all_leaf_fields(case["case"]["tree"]))
+
+
+FINDINGS = {
+    "C17-list-of-containers": _sig_loc,
+}
 
 MANIFEST = {
-    "text": ("Proof, full on the command-line type grammar. Lean theorems over a model of the annotation objects CPython hands to "
-             "simple_parsing (plain class, typing alias, builtin alias, types.UnionType, postponed text) and of the code "
-             "that looks at them (the utils.py classifiers, get_parsing_fn / get_argparse_type_for_container, "
+    "text": ("Proof, partial (named gap: ListItemsNotContainers = open finding C17-list-of-containers). Lean theorems over a "
+             "model of the annotation objects CPython hands to simple_parsing (plain class, typing alias, builtin alias, "
+             "types.UnionType, postponed text) and of simple_parsing's code that looks at them (utils.py classifiers, "
+             "get_parsing_fn / get_argparse_type_for_container, contains_dataclass_type_arg, "
              "_replace_UnionType_with_typing_Union, the string resolution of get_field_type_from_annotations, the type-"
-             "dependent part of get_arg_options): for every type expression of the command-line grammar — unbounded "
-             "nesting of lists, variadic tuples, unions and optionals, tuples of any length — the argparse options a field "
-             "gets (branch, required, nargs, type= callable) are the same in all five renderings, with no rendering excluded (c17_style_invariant, under the "
-             "evaluator assumption, for expressions in CPython's normal form: unions have >= 2 pairwise different members); "
-             "the recursive UnionType replacement yields exactly the builtin-style object; resolution is "
-             "idempotent (the in-place update of Field.type is harmless); a class whose fields are split over a linear "
-             "inheritance chain has the same field list as the flat class; the text rewriter is the identity on `|`-free "
-             "text and maps flat unions to Union[...]. The grammar's one restriction is named (ListItemsNotContainers: a "
-             "list whose items are themselves containers is not a command-line type; c17_grammar_boundary shows why); the two "
-             "repaired defects are regression examples. The model is tied to the code by seven correspondence ops, and the property itself (equal "
-             "results / exit codes of all 20 renderings of a tree) is evaluated on real modules."),
+             "dependent part of get_arg_options, and the annotation-dependent arms of FieldWrapper.postprocess): "
+             "c17_style_invariant_partial — for every field type of InCliGrammar in CPython's normal form, all six renderings "
+             "(typing, builtin, PEP 604, and the postponed text of each) give a field the same add_argument options "
+             "(branch, required, nargs, type= callable) AND the same postprocess arm, under the evaluator assumption; "
+             "c17_post_live proves the postprocess arm equal for EVERY type expression. InCliGrammar allows unbounded nesting "
+             "of lists, variadic tuples, unions, optionals, Optional[dataclass]; its restrictions are named: "
+             "ListItemsNotContainers (the gap: List[List[int]] vs list[list[int]] genuinely differ — witness "
+             "c17_list_of_containers_witness, FullStatement refuted) and, for the proof only, TupleItemsAtomic and "
+             "OptionalUnionMembersAtomic (fixed-tuple items / Optional[Union] members are atoms; about 10% of generated fields "
+             "fall outside and are covered by the differential check only). Further: the recursive UnionType replacement "
+             "yields exactly the builtin-style object (replace_denote); resolution is idempotent on the grammar; the field "
+             "list of ANY linear chain, re-declared fields included, is first-declaration order with the last definition in "
+             "force (c17_inherit_order, c17_inherit_last_wins). The rewriter theorems (identity on |-free text, flat unions, "
+             "Optional of a builtin atom) are separate: on Python 3.12 the text rewriter is reached only through the TypeError "
+             "arm of the resolution, never by the six renderings. SAMPLED ONLY, not modelled: the namespace logic of "
+             "get_field_type_from_annotations (layering of typing names / frame locals / MRO-ordered module globals, the frame "
+             "walk) — the model takes CPython's evaluation as a parameter (EvalOk) whose table the driver builds itself, so "
+             "'function still executing', 'inherited x postponed' and 'base in another module' are checked by the oracle on "
+             "real modules (function scope executed 3 times with same-call class identity, colliding module-level names, "
+             "a two-module chain layout), not by a theorem."),
     "note": ("Trusted: Lean kernel + propext/Classical.choice/Quot.sound; CPython's evaluation of annotation text and its "
-             "typing representations (observed and passed to the model as the evaluator table); stdlib argparse; the "
-             "harness. Modelled not verified: utils.py:134-611, get_field_annotations.py:69-252, field_parsing.py:70-249, "
-             "field_wrapper.py:267-398, dataclass_wrapper.py:81-92,448-460. The theorems speak about the options a field "
-             "gets, not about argparse's subsequent parsing (equal add_argument keywords give equal parses)."),
+             "typing representations (observed; the evaluator table of the e2e op is built by the model from its own "
+             "renderer, whose text is compared with the harness renderer and with the real Field.type strings); stdlib "
+             "argparse (equal add_argument keywords give equal parses); the harness. Modelled not verified: utils.py:134-611, "
+             "get_field_annotations.py:69-252, field_parsing.py:70-249, field_wrapper.py:267-398,460-533, "
+             "dataclass_wrapper.py:81-92,133-166,448-460. default= and metavar are not part of the modelled options (they are "
+             "covered by the end-to-end comparison of results only)."),
     "technique": "Lean 4 mutual structural induction over type expressions + differential correspondence on real rendered modules",
     "design_ref": "DESIGN.md section 5, C17",
 }
